@@ -11,10 +11,22 @@ import "github.com/KevoDB/kevo/pkg/zzverif/vsym"
 // loses, reorders nor resurrects anything - and a further write, clean close and reopen work as usual.
 func VerifC02_CrashDuringMaintenance() {
 	h := &hEnv{}
+	syncMode := 2
+	if vsym.Thorough() {
+		// thorough: also the unsynced modes, where acknowledged writes may be lost but the prefix shape must hold
+		syncMode = vsym.IntRange("sync", 0, 2)
+		h.sync = syncMode + 1
+	}
 	h.hKeys(2)
 	h.hOpen(true, vsym.IntRange("small", 0, 1) == 1)
 	v0 := vsym.Bytes("v0", 1)
 	vsym.Assert(h.e.Put(h.K[0], v0) == nil, "setup put failed")
+	if syncMode != 2 {
+		// without synchronous logging a write may sit in the process' log buffer indefinitely; the setup write is
+		// made durable the only way those modes offer: a clean close
+		vsym.Assert(h.e.Close() == nil, "setup close failed")
+		h.hOpen(false, false)
+	}
 	vsym.Durable()
 	v1, v2 := vsym.Bytes("v1", 1), vsym.Bytes("v2", 1)
 	vsym.Assume(vsym.Not(vsym.EqBytes(v0, v2)))
@@ -44,7 +56,7 @@ func VerifC02_CrashDuringMaintenance() {
 	h.hOpen(false, false)
 	g0, e0 := h.e.Get(h.K[0])
 	_, e1 := h.e.Get(h.K[1])
-	vsym.Assert(e0 == nil, "a key written and synced long before the crash is gone after recovery")
+	vsym.Assert(e0 == nil, "a key written and on stable storage long before the crash is gone after recovery")
 	if e0 != nil {
 		return
 	}
@@ -64,7 +76,9 @@ func VerifC02_CrashDuringMaintenance() {
 		}
 	}
 	vsym.Assert(any, "the recovered state is not the state after a prefix of the history (reordered, half-applied or resurrected)")
-	vsym.Assert(ackedOK, "an acknowledged write is missing after crash recovery")
+	if syncMode == 2 {
+		vsym.Assert(ackedOK, "an acknowledged write is missing after crash recovery although logging is synchronous")
+	}
 	// life goes on
 	nv := vsym.Bytes("nv", 1)
 	vsym.Assert(h.e.Put(h.K[1], nv) == nil, "Put after recovery failed")
